@@ -39,7 +39,7 @@ def main():
     ap.add_argument("--checks", default="", help="comma separated extra PIDs to run as well")
     a = ap.parse_args()
     sid = f"{a.pid}-{a.name}"
-    wt = f"/tmp/seedtest/{sid}"
+    wt = f"/tmp/seedtest/{sid}-{os.getpid()}"
     os.makedirs("/tmp/seedtest", exist_ok=True)
     run(["git", "-C", "/repo", "worktree", "remove", "--force", wt])
     rc, out = run(["git", "-C", "/repo", "worktree", "add", "--detach", wt, "HEAD"])
